@@ -132,6 +132,14 @@ type Case struct {
 	Engine         string         `json:"engine"` // v1 | v2
 	PersistDelayMs int            `json:"persist_delay_ms"`
 	PersistBundle  int            `json:"persist_bundle"`
+	// HoldStartInRecovery: a scripted Start is not issued while the pipeline reports Recovering
+	// (used to keep the search going behind a known finding of that shape).
+	HoldStartInRecovery bool `json:"hold_start_in_recovery,omitempty"`
+	// StatusFailAt lists the status writes (0 = the first one of the case) whose store write fails.
+	StatusFailAt []int `json:"status_fail_at,omitempty"`
+	// LogDelayMs > 0: the engine's log sink is slow, every warn/error line takes this long to
+	// write (the window between an engine step and the next one that a log call separates).
+	LogDelayMs int `json:"log_delay_ms,omitempty"`
 	Recovery       RecoverySpec   `json:"recovery"`
 	Sources        []SourceSpec   `json:"sources"`
 	Procs          []ProcSpec     `json:"procs,omitempty"`
